@@ -181,9 +181,10 @@ spec("unordered_chain",
 #     of them sensitive, the second not
 spec("twins",
      subnets=[2, 1], topology=topo(3, [(0, 1), (1, 2)]),
-     os=["linux"], services=["ssh"], processes=["tomcat"],
-     hosts={(1, 0): H("linux", ["ssh"], ["tomcat"]), (1, 1): H("linux", ["ssh"], ["tomcat"]),
-            (2, 0): H("linux", ["ssh"], ["tomcat"])},
+     # more processes than services; the processes a scan must reveal sit in the last columns
+     os=["linux"], services=["ssh"], processes=["tomcat", "cron", "daemon"],
+     hosts={(1, 0): H("linux", ["ssh"], ["tomcat", "daemon"]), (1, 1): H("linux", ["ssh"], ["tomcat", "daemon"]),
+            (2, 0): H("linux", ["ssh"], ["tomcat", "cron"])},
      # e_never: probability exactly 0 (accepted by the format): never succeeds, whatever the action space
      exploits={"e_ssh": E("ssh", "linux", 0.9, 1, U), "e_never": E("ssh", None, 0.0, 1, R)},
      privescs={"pe_tomcat": P("tomcat", "linux", 1.0, 1, R), "pe_never": P("tomcat", None, 0, 1, R)},
